@@ -2,6 +2,7 @@ package main
 
 import (
 	"fmt"
+	"sort"
 	"strings"
 
 	"github.com/lyraproj/pcore/px"
@@ -146,7 +147,12 @@ func (fs *fullState) checkFull(w *world, r *refWorld, o opT, got string) (string
 				}
 				continue
 			}
+			ks := make([]string, 0, len(a.own))
 			for k := range a.own {
+				ks = append(ks, k)
+			}
+			sort.Strings(ks) // (a Go map has no order; the report must not depend on it)
+			for _, k := range ks {
 				ask(k)
 			}
 			if a.kind == "typeset" {
